@@ -9,7 +9,9 @@
 //     `fatal error: concurrent map …` kills a Go process and cannot be recovered, so the workload runs in a
 //     re-executed copy of this binary and the exit status / stderr are observed;
 //  4. re-entrancy and slow callbacks (reent.go, reent_other.go): handlers and list filters that register /
-//     unregister while they run, parked handlers — every registry operation must complete (bounded wait).
+//     unregister while they run, parked handlers — every registry operation must complete (bounded wait);
+//  5. malformed requests (malformed.go): every class of request that must be refused, between and during
+//     registrations — a refusal path that keeps a lock wedges the registry at the next registration.
 package main
 
 import (
@@ -36,7 +38,12 @@ func main() {
 			"operation and request must return within 5 s (else registry:deadlock:<callback>:<operation>), the completed case is a sequential history diffed with the model (look-up, inner operation, 17+ observations); " +
 			"a parked callback of each kind (event-based) while ~30 operations on all registries (register, re-register, unregister, list, dispatch of other entries, twice) must each complete within 5 s; " +
 			"the same for the notification handlers of SSEServer (raw SSE peer) and StdioServer (in-process pipes): 8 inner operations and a parked handler each; " +
-			"non-trivial = the inner operation replaced or removed a live entry",
+			"non-trivial = the inner operation replaced or removed a live entry. " +
+			"malformed (one sub-process, one fresh server per case): 59 classes of requests that must be refused (tools/call, prompts/get, resources/read: params array / string / number / null / missing, name or uri missing / of the wrong type / empty / unknown, " +
+			"arguments array / string / number / bool on two registered tools, on a registered prompt and resource; list requests with non-object params; subscribe, completion, unknown method) on a server with live entries, " +
+			"sent 4 times with 24 registrations / re-registrations / unregistrations / lists / calls over all five registries in between: every request and every operation must return within 5 s " +
+			"(registry:deadlock:malformed-request:<class>, registry:blocked-after-malformed-request:<class>:<operation>), the operations are a sequential history diffed with the model; " +
+			"per registry 2 goroutines registering / unregistering while 3 sessions send malformed and well-formed requests, a watchdog on progress",
 		Run: func(c *hk.Ctx) {
 			runSequential(c)
 			runConcurrent(c)
